@@ -9,6 +9,7 @@
 //! that was rejected, a fixed valid probe for the same entry point is re-run and must give the
 //! answer recorded at start-up ("a rejected input has no effect on later calls").
 mod entries;
+mod scan;
 mod seeds;
 
 use std::{
@@ -82,6 +83,9 @@ fn run_ep(name: &str, input: Vec<u8>) -> Outcome {
 
 fn run(req: &str) -> Outcome {
     let toks: Vec<&str> = req.split(' ').collect();
+    if let Some(o) = scan::run(&toks) {
+        return o;
+    }
     match toks.as_slice() {
         ["c17.ep", name, h] => match unh(h) {
             Some(b) => run_ep(name, b),
@@ -130,7 +134,7 @@ fn run(req: &str) -> Outcome {
 // ---------------------------------------------------------------------------------------------
 // generation
 
-fn mutate_bytes(rng: &mut Rng, mut b: Vec<u8>) -> Vec<u8> {
+pub(crate) fn mutate_bytes(rng: &mut Rng, mut b: Vec<u8>) -> Vec<u8> {
     const SPECIAL: &[u8] = b"\0\n\r\t \"'\\/;:=,*?%#&+@!$[]{}<>.-_~\x7f\x80\xc3\xe2\xf0\xff0aA";
     let n = 1 + rng.below(3);
     for _ in 0..n {
@@ -425,6 +429,8 @@ fn gen(rng: &mut Rng, n: usize, tier: &str) -> Vec<Req> {
             _ => gen_ep(rng),
         });
     }
+    // the hand-written scanners that have a Lean model (T2 against the model)
+    scan::gen(rng, n, tier, &mut v);
     v
 }
 
